@@ -293,7 +293,19 @@ var ruleHTMLOrder = &core.Rule{ID: "R12.4", Min: 3,
 				bomCall = call
 			}
 		}
-		if bomCall == nil {
+		if st := stagesOf(f); bomCall == nil && st != nil {
+			// combinator form: the stages are tried in order and the first non-empty result is returned unchanged
+			bi, pi := -1, -1
+			for i, g := range st {
+				if g == cm.bomFn && bi < 0 {
+					bi = i
+				}
+				if reachesCallee(g, func(cc *ssa.CallCommon) bool { return core.CalleeIs(cc, pkgHTML, "NewTokenizer") }, map[*ssa.Function]bool{}) && pi < 0 {
+					pi = i
+				}
+			}
+			s.Check(bi == 0 && pi > bi, "BOM before meta prescan", c.Pos(f.Pos()), "first stage of the fallback chain is the BOM lookup; the prescan comes later", "the meta prescan can run although a byte-order mark is present, or the BOM name is not what is returned")
+		} else if bomCall == nil {
 			s.Bad("BOM before meta prescan", c.Pos(f.Pos()), "the HTML sniffer does not consult the BOM table on its input: a meta declaration would override a byte-order mark")
 		} else {
 			first := true
